@@ -198,11 +198,47 @@ def kaldi_runs(run, tier, rng, root, traces):
             for u in ids:
                 if u not in included:
                     run.violation({"kind": "excluded_utterance_in_output", "tool": "kaldi", "utt": u, "channel": channel, "min_duration": min_dur})
+            # With a random pre-processor (dither) the statement fixes the pipeline, not the noise: "with a fixed --seed
+            # two runs produce identical output".  The tool as it stands draws the noise from numpy's generator seeded once
+            # with --seed, utterances in table order, and the reference replays exactly that; a tree that seeds differently
+            # is held to what the statement says - same output for the same seed, and the features of the configured
+            # pipeline up to the size of the noise (one unit against samples of +-3000).
+            dithered = any(opname(c) == "Dither" for c in pre_cfg)
+            replay_ok = all(v.shape == want[k].shape and (v.shape[0] == 0 or np.allclose(v, want[k], rtol=1e-4, atol=1e-4))
+                            for k, v in stored if k in want)
+            if dithered and not replay_ok:
+                quiet = library_kaldi(signals, included, [c for c in pre_cfg if opname(c) != "Dither"], post_cfg, 11)
+                ark2 = ark + ".again"
+                args2 = [("ark:" + ark2) if a == "ark:" + ark else a for a in args]
+                saved = os.dup(2)
+                devnull = os.open(os.devnull, os.O_WRONLY)
+                try:
+                    os.dup2(devnull, 2)
+                    with warnings.catch_warnings():
+                        warnings.simplefilter("ignore")
+                        rc2 = cl.compute_feats_from_kaldi_tables(args2)
+                finally:
+                    os.dup2(saved, 2)
+                    os.close(saved)
+                    os.close(devnull)
+                with kopen("ark:" + ark2, "bm") as f:
+                    again = list(f.items())
+                if rc2 not in (0, None) or [k for k, _ in again] != ids or any(a.shape != v.shape or a.tobytes() != v.tobytes()
+                                                                                for (_, a), (_, v) in zip(again, stored)):
+                    run.violation({"kind": "fixed_seed_two_runs_differ", "tool": "kaldi", "pre": pre_cfg, "post": post_cfg, "syntax": syntax})
+                want = quiet
+                run.extra["kaldi_dither_not_replayed"] = "noise realisation differs from numpy seeded once with --seed: held to determinism and to the pipeline up to the noise"
             for k, v in stored:
                 if k in want:
                     w = want[k]
                     if v.shape[0] == 0 and w.shape[0] == 0:
                         continue  # a kaldi archive does not keep the column count of an empty matrix
+                    if dithered and not replay_ok:
+                        if v.shape != w.shape or not np.allclose(v, w, rtol=2e-2, atol=5e-2):
+                            run.violation({"kind": "kaldi_stored_features_differ_from_library_pipeline", "utt": k, "pre": pre_cfg, "post": post_cfg,
+                                           "syntax": syntax, "channel": channel, "stored_shape": list(v.shape), "library_shape": list(w.shape),
+                                           "what": "beyond what one unit of dither noise explains"})
+                        continue
                     if v.shape != w.shape or not np.allclose(v, w, rtol=1e-4, atol=1e-4):
                         run.violation({"kind": "kaldi_stored_features_differ_from_library_pipeline", "utt": k, "pre": pre_cfg, "post": post_cfg,
                                        "syntax": syntax, "channel": channel, "stored_shape": list(v.shape), "library_shape": list(w.shape)})
